@@ -109,9 +109,9 @@ DEDUCTIVE = {
     "C13": node(["can_have_child_webentities", "flag_can_have_child_webentities", "has_parent", "parent"]) + ENSURE + EDITS + DFS[:1] + LADDER[:1] + PREFIXES[:1] + HIER + ADD_LRU_C13,
     "C14": [T(ST, f) for f in ("MemoryStorage.read", "FileStorage.read", "MemMapStorage.read", "MemoryStorage.__len__", "FileStorage.__len__", "FileStorage.check_for_corruption")] + [T(NO, "LRUTrieNode.read", 2)] + node(NODE_ACCESSORS) + READERS,
     "C15": STORAGE + [T(NO, "LRUTrieNode.read", 2)],
-    "C16": NODE_RW[:2] + ADD_LINKS + BATCH,
+    "C16": NODE_RW[:2] + ADD_LINKS + BATCH + ENSURE,
     "C17": [T(HE, "https_variation"), T(HE, "lru_variations")] + LADDER + PREFIXES[:1],
-    "C18": [T(NO, "LRUTrieNode.read", 2), T(NO, "LRUTrieNode.write", 8), T(LK, "LinkStoreNode.read")] + ADD_LINKS + COUNTS + [T(ST, "FileStorage.check_for_corruption"), T(ST, "FileStorage.read"), T(ST, "FileStorage.write", 2)],
+    "C18": [T(NO, "LRUTrieNode.read", 2), T(NO, "LRUTrieNode.write", 8), T(LK, "LinkStoreNode.read")] + ADD_LINKS + WALKS + COUNTS + [T(ST, "FileStorage.check_for_corruption"), T(ST, "FileStorage.read"), T(ST, "FileStorage.write", 2)],
     "C19": CHUNKS + [T(NO, "LRUTrieNode.set_stem"), T(NO, "LRUTrieNode.write", 8), T(ST, "MemoryStorage.count_blocks"), T(ST, "FileStorage.count_blocks"), T(ST, "MemoryStorage.write", 2), T(ST, "FileStorage.write", 2)] + ENSURE + LADDER[:1] + ADD_LRU + ADD_LINKS + COUNT_LINKS,
     "C20": node(["has_inlinks", "inlinks", "is_page"]) + LINK_NODE + WALKS + REALM,
 }
